@@ -167,6 +167,23 @@ func ruleCommitAll(rule string) RuleFn {
 			okG = okG && in
 		}
 		c.Check(okG, rule, "Commit forwards every member of every staged group", "for k, vs := range sr.groups: for _, v := range vs: submitGroupedValue(k.group, k.t, v)", "not every staged group member is forwarded (or not under its own key): members are lost on commit", nil, nil)
+		// what is staged for a group key only ever grows: every write to stagingContainerWriter.groups stores
+		// append(<the list already staged under that key>, ...) - an assignment of a fresh list drops the members the
+		// same constructor staged for that key before (a plain member and a flattened slice share one key)
+		for _, wfn := range c.P.Funcs {
+			if wfn.Signature.Recv() == nil || !an.IsDigNamed(wfn.Signature.Recv().Type(), "stagingContainerWriter") {
+				continue
+			}
+			an.Instrs(wfn, func(in ssa.Instruction) {
+				mu, ok := in.(*ssa.MapUpdate)
+				if !ok || !strings.HasSuffix(an.Norm(mu.Map), ".groups") {
+					return
+				}
+				v := an.Norm(mu.Value)
+				grows := strings.HasPrefix(v, "append("+an.Norm(mu.Map)+"[")
+				c.Check(grows, rule, "the staging writer only appends to a staged group ("+an.ShortName(wfn)+")", "groups[k] = append(groups[k], ...)", "a staged group list is replaced ("+v+"), not extended: members the same constructor staged under that key earlier are dropped before the commit - the constructor counts as called, and no later request can bring them back", mu, nil)
+			})
+		}
 		n := countIfs(fn)
 		c.Check(n == 3, rule, "Commit has no condition besides its loop tests", "3 loop tests", fmt.Sprintf("%d branches in Commit: some staged results can be held back", n), nil, nil)
 	}
